@@ -38,13 +38,28 @@ def _is_spinner(h):
     return getattr(h._callback, "__func__", None) is _DELIVER
 
 
+_OPAQUE = ("async_generator_asend", "async_generator_athrow")
+
+
 def coro_frames(task):
     """(filename, funcname) chain of the suspended coroutine stack, outermost first."""
+    import gc
+    import types
+
     c = task.get_coro()
     out = []
     seen = 0
     while c is not None and seen < 200:
         seen += 1
+        if type(c).__name__ in _OPAQUE:
+            # asend()/athrow() awaitables are opaque; their referent is the generator
+            nxt = None
+            for r in gc.get_referents(c):
+                if isinstance(r, types.AsyncGeneratorType):
+                    nxt = r
+                    break
+            c = nxt
+            continue
         f = (
             getattr(c, "cr_frame", None)
             or getattr(c, "gi_frame", None)
@@ -61,12 +76,29 @@ def coro_frames(task):
 
 
 def hc_site(frames):
-    """Innermost httpcore frame as 'file:function' (no line numbers)."""
+    """Innermost httpcore frame as 'file:function' (no line numbers); when that frame
+    is a synchronisation primitive, the frame that called it is named first."""
+    prim = None
     for fn, name in reversed(frames):
         i = fn.find("/httpcore/")
         if i != -1:
-            return fn[i + len("/httpcore/"):] + ":" + name
+            rel = fn[i + len("/httpcore/"):]
+            if rel.startswith("_synchronization") or rel.startswith("_trace"):
+                if prim is None:
+                    prim = name
+                continue
+            rel = rel.replace("_async/", "").replace("_sync/", "")
+            return rel + ":" + name + (">" + prim if prim else "")
     return None
+
+
+def stack_site(f):
+    frames = []
+    while f is not None:
+        frames.append((f.f_code.co_filename, f.f_code.co_name))
+        f = f.f_back
+    frames.reverse()
+    return hc_site(frames)
 
 
 class SimLoop(base_events.BaseEventLoop):
@@ -88,6 +120,8 @@ class SimLoop(base_events.BaseEventLoop):
         self.shield = {}         # task -> depth
         self.on_quiescent = None
         self.caller_tasks = {}
+        self._site_pending = None
+        self.record_sites = None   # (caller name, list) -> site after each step
 
     # -- plumbing ---------------------------------------------------------------
     def _factory(self, loop, coro, **kw):
@@ -118,14 +152,7 @@ class SimLoop(base_events.BaseEventLoop):
     def ctx_site(self):
         import sys
 
-        f = sys._getframe(1)
-        while f is not None:
-            fn = f.f_code.co_filename
-            i = fn.find("/httpcore/")
-            if i != -1:
-                return fn[i + len("/httpcore/"):] + ":" + f.f_code.co_name
-            f = f.f_back
-        return None
+        return stack_site(sys._getframe(1))
 
     # -- cancellation injection ---------------------------------------------------
     def _deliver(self, task, inj):
@@ -139,6 +166,10 @@ class SimLoop(base_events.BaseEventLoop):
         self.world.log("cancel_inject", task.get_name(), inj["kind"], inj["timing"],
                        inj["step"], self.injected["site"], self.injected["shield"])
         self.world.stats["cancel:%s:%s" % (inj["kind"], inj["timing"])] += 1
+        if inj["timing"] == "late" or (inj["timing"] == "deadline"
+                                       and task._fut_waiter is None):
+            # the exception will be raised at the task's next checkpoint: name it
+            self._site_pending = task
         if inj["kind"] == "native":
             task.cancel()
         else:
@@ -147,6 +178,14 @@ class SimLoop(base_events.BaseEventLoop):
                 sc.cancel()
 
     def after_step(self, task):
+        rec = self.record_sites
+        if rec is not None and task.get_name() == rec[0] and not task.done():
+            rec[1].append(hc_site(coro_frames(task)))
+        if self._site_pending is task:
+            self._site_pending = None
+            if not task.done() and self.injected is not None:
+                self.injected["site"] = hc_site(coro_frames(task))
+                self.injected["shield"] = self.shield.get(task.get_name(), 0) > 0
         inj = self.inject
         if (
             inj is not None
